@@ -58,6 +58,7 @@ func (p *PubSub) handleNewStream(s network.Stream) {
 	sentNewStream := false
 
 	defer func() {
+		verifYield(verifInboundExit)
 		p.inboundStreamsMx.Lock()
 		if p.inboundStreams[peer].s == s {
 			delete(p.inboundStreams, peer)
